@@ -344,7 +344,32 @@ fn one_scenario(run: &Run, case: u64) {
             }
         }
     }
-    if only_k.is_none() && only_random.is_none() {
+    // persistent faults: every operation of one kind on one path fails, however often it is
+    // tried again
+    let only_path = r.as_ref().and_then(|r| r.get("persistent_path")).and_then(|k| k.as_str()).map(String::from);
+    if (only_k.is_none() && only_random.is_none()) || only_path.is_some() {
+        let mut targets: Vec<(V, String)> = sc.trace.iter().map(|e| (e.verb, e.path.clone())).collect();
+        targets.sort();
+        targets.dedup();
+        for (verb, path) in targets {
+            if only_path.is_some() && only_path.as_deref() != Some(path.as_str()) {
+                continue;
+            }
+            for kind in [conserve::transport::ErrorKind::Other, conserve::transport::ErrorKind::PermissionDenied] {
+                if run.out_of_time() {
+                    run.count("faults_skipped_by_time_budget", 1);
+                    continue;
+                }
+                let fr = sc.run_with(Mode::FailPath { verb, path: path.clone(), kind }, 0);
+                run.eval();
+                run.count("persistent_faults", 1);
+                let replay = json!({"case": case, "persistent_path": path, "verb": verb.name(), "kind": kind_name(kind), "scenario": sc.desc});
+                check_fault_run(run, &sc, &fr, &before, &replay);
+                crate::scratch::rm(&fr.arch);
+            }
+        }
+    }
+    if only_k.is_none() && only_random.is_none() && only_path.is_none() {
         partial_write_runs(run, &sc, case, &before);
     }
     // random multi-fault sequences
@@ -377,6 +402,6 @@ pub fn run(tier: Tier, replay: Option<Value>) -> i32 {
         "scenarios as in C03 (small blocks so combined-block flushes happen mid-run); for EVERY operation k of the backup's storage trace and each kind in {not-found, already-exists, permission-denied, other} the operation is made to fail (not executed, error returned); plus random multi-fault runs with p in {0.02, 0.1, 0.3}; plus REAL partial writes: the backup runs in a child process under RLIMIT_FSIZE in {16, 80, 150, 400, 700} bytes, on a copy of the source that also holds two incompressible multi-block files (max_block_size 1000), so that heads, tails and hunks fit while blocks are cut off (every larger archive write fails part-way inside the real local transport), followed by a fault-free backup of the same source that must then be a true success. After each run: no panic and no unbounded storage loop; every file that existed before is byte-identical; earlier versions restore exactly; every file entry of every hunk of every band, decoded independently, resolves through the raw blocks to exactly the bytes its path had in that band's source; a run that reports full success (Ok, stats.errors==0, no monitor error) has a tail and restores the source exactly. Distinct = (scenario, k, path, kind) resp. the injected set.",
         &["an injected fault returns an error without executing the operation", "E2 reader trusted (snap, serde_json, blake2-rfc)"],
         Some(true),
-        &[("single_faults", 100), ("fault_at_write", 20), ("file_entries_resolved_and_compared", 200), ("runs_reporting_an_error", 10), ("runs_reporting_full_success", 1), ("random_multi_fault_runs", 10), ("partial_write_runs", 8), ("partial_write_runs_with_errors", 2), ("partial_write_followups_exact", 2), ("fault_pairs_both_injected", 200)],
+        &[("single_faults", 100), ("fault_at_write", 20), ("file_entries_resolved_and_compared", 200), ("runs_reporting_an_error", 10), ("runs_reporting_full_success", 1), ("random_multi_fault_runs", 10), ("partial_write_runs", 8), ("partial_write_runs_with_errors", 2), ("partial_write_followups_exact", 2), ("fault_pairs_both_injected", 200), ("persistent_faults", 100)],
     )
 }
